@@ -50,6 +50,9 @@ claimed.update({
  "C16": dict(category="model_checking",
    text=("PARTIAL by design: the fault-free-network statement about proposal spacing is not decided (whole-network runs in virtual time). Solver-decided on the real OnTimeout/OnNewTransaction from every Inv state at view 0 with symbolic TimePerBlock <= MaxTimePerBlock: idle primary defers an empty proposal (subscribe once, re-arm max-min), proposes on the next expiry or on a new-transaction notification in that call; idle backup does not ask for a view change (subscribe, re-arm 2max-2min >= 0), a notification re-arms 2*min without ChangeView; notification without subscription changes nothing; with the extension not configured no path subscribes (a call of the nil callback would be a panic = violation)."),
    design_ref="DESIGN.md §6 C16", technique=STEP_TECH, note=STEP_NOTE + " Network-level spacing is outside the claim."),
+ "C14": dict(category="model_checking",
+   text=("RELATIONAL symbolic execution of the real code: two worlds whose absolute time references (injected clock, lastBlockTime, prepareSentTime, lastBlockTimestamp, Reset argument) differ by any multiple of the timestamp increment run the same API call with the same arguments and callback results from every pair of related Inv states; every reading of the machine's wall clock is an unconstrained fresh value in each world. The solver proves equal event sequences (self-made timestamps shifted by the offset, Timer.Reset/Extend durations identical) and related post-states (instants shifted, round-trip estimates and everything else equal); one relational step from every related pair covers scripted runs of any length. The truncation lemma is proved separately for all 64-bit clocks and instantiated."),
+   design_ref="DESIGN.md §6 C14", technique="relational (two-run) symbolic execution of go/ssa + SMT (cvc5 bit-vectors-as-integers, one-shot mode for the division lemmas)", note=STEP_NOTE),
 })
 
 na = {
